@@ -19,6 +19,7 @@ import SJ.Drv.C07
 import SJ.Drv.C16x
 import SJ.Drv.StreamRaw
 import SJ.Drv.LexMath
+import SJ.Drv.LineCol
 /-!
 `sjdriver` — reads case lines `op args… => impl-observation` on stdin, runs the Lean model and the
 executable specification on each, prints
@@ -51,6 +52,7 @@ def allHandlers : List (String × Handler) :=
     C16x.handlers,
     StreamRaw.handlers,
     LexMath.handlers,
+    LineCol.handlers,
   ]
 
 def findHandler (op : String) : Option Handler := (allHandlers.find? (·.1 == op)).map (·.2)
